@@ -31,7 +31,7 @@ import sval
 import tables
 from bits import BV, Evaluator
 from facts import short
-from mir import INT_TYPES
+from mir import INT_TYPES, body_of
 from report import site_of
 
 SPEC = json.load(open(os.path.join(os.path.dirname(os.path.dirname(os.path.dirname(os.path.abspath(__file__)))), "spec", "fourcc.json")))
@@ -560,6 +560,36 @@ def r5(fx, chk):
         good = g is not None and g.routing() == want and g.bits[5] == 1 and g.bits[6] == 1 and all(b == 0 for b in g.bits[7:])
         chk.require(good, "R5", "decode|char%d" % i, "bits %d..%d + 0x60" % (sh, sh + 4), "language character %d is decoded as %r; ISO 639-2/T packing is ((code >> %d) & 0x1F) + 0x60" % (i, g, sh), site_of(dec))
         ok = ok and good
+    # the routing applies to every input: each point where the result is produced is dominated by the three stores
+    body = body_of(dec)
+    if body is not None:
+        stores = {}
+        for b in range(body.n):
+            for st_ in body.stmts(b):
+                if st_["k"] == "assign" and st_["place"]["p"]:
+                    for pe in st_["place"]["p"]:
+                        if not isinstance(pe, dict) or not body.local_ty(st_["place"]["l"]).startswith("[u16; 3]"):
+                            continue
+                        if "cidx" in pe:
+                            stores.setdefault(pe["cidx"], []).append(b)
+                        elif "index" in pe:
+                            sd = body.single_def(pe["index"])
+                            from mir import op_const
+                            cv = op_const(sd[3]["a"]) if sd is not None and sd[2] == "assign" and sd[3]["k"] == "use" else None
+                            if cv is not None:
+                                stores.setdefault(cv, []).append(b)
+        outs = []
+        for b in range(body.n):
+            if b not in body.reach:
+                continue
+            if any(st_["k"] == "assign" and st_["place"]["l"] == 0 for st_ in body.stmts(b)):
+                outs.append(b)
+            t_ = body.term(b)
+            if t_["k"] == "call" and t_["dest"]["l"] == 0:
+                outs.append(b)
+        total = len(stores) == 3 and bool(outs) and all(any(body.dominates(sb, o) for sb in stores[i]) for i in stores for o in outs)
+        chk.require(total, "R5", "decode|total", "every result is produced after the three character groups were decoded from the packed code",
+                    "language_string returns a value on a path that bypasses the 5-bit decoding: some 16-bit codes are not decoded as packed ISO-639-2/T", site_of(dec))
     # encoder: final value of `code`
     ev2 = Evaluator(fx)
     code = None
